@@ -1,6 +1,7 @@
 from __future__ import annotations
 
 from dataclasses import dataclass, field
+from itertools import islice
 
 from typing_extensions import (
     Generic,
@@ -137,12 +138,25 @@ class HashedIterable(Generic[T]):
         """
         Iterate over the hashed values.
 
+        Every iterator keeps its own position in the cache and takes a value from the (shared, possibly one-shot)
+        source only when it has handed out everything that is cached, so iterations may be interleaved freely.
+
         :return: An iterator over the hashed values.
         """
-        yield from self.values.values()
-        for v in self.iterable:
-            self.values[v.id_] = v
-            yield v
+        position = 0
+        while True:
+            while position < len(self.values):
+                for v in list(islice(self.values.values(), position, None)):
+                    position += 1
+                    yield v
+            for v in self.iterable:
+                self.values[v.id_] = v
+                position = len(self.values)
+                yield v
+                if position < len(self.values):
+                    break
+            else:
+                return
 
     def __or__(self, other) -> HashedIterable[T]:
         return self.union(other)
